@@ -27,6 +27,7 @@ import (
 	"strconv"
 	"syscall"
 
+	"github.com/google/uuid"
 	"github.com/versity/versitygw/auth"
 	"github.com/versity/versitygw/backend"
 	"github.com/versity/versitygw/s3err"
@@ -37,6 +38,7 @@ const procfddir = "/proc/self/fd"
 
 type tmpfile struct {
 	f          *os.File
+	dir        string
 	bucket     string
 	objname    string
 	isOTmp     bool
@@ -81,6 +83,7 @@ func (p *Posix) openTmpFile(dir, bucket, obj string, size int64, acct auth.Accou
 
 	tmp := &tmpfile{
 		f:          f,
+		dir:        dir,
 		bucket:     bucket,
 		objname:    obj,
 		isOTmp:     true,
@@ -165,14 +168,14 @@ func (tmp *tmpfile) link() error {
 	// of last upload completed wins and is not some combination of writes
 	// from simultaneous uploads.
 	objPath := filepath.Join(tmp.bucket, tmp.objname)
-	err := os.Remove(objPath)
-	if err != nil && !errors.Is(err, fs.ErrNotExist) {
-		return fmt.Errorf("remove stale path: %w", err)
-	}
 
+	// An existing object is not removed first: rename(2) below replaces it
+	// atomically, so concurrent readers (and a crash at any point) see
+	// either the complete old or the complete new object, never a missing
+	// one.
 	dir := filepath.Dir(objPath)
 
-	err = backend.MkdirAll(dir, tmp.uid, tmp.gid, tmp.needsChown, tmp.newDirPerm)
+	err := backend.MkdirAll(dir, tmp.uid, tmp.gid, tmp.needsChown, tmp.newDirPerm)
 	if err != nil {
 		return fmt.Errorf("make parent dir: %w", err)
 	}
@@ -188,27 +191,35 @@ func (tmp *tmpfile) link() error {
 	}
 	defer procdir.Close()
 
-	dirf, err := os.Open(dir)
+	// linkat(2) cannot replace an existing name, so the unnamed file first
+	// gets a unique name in the temp directory it was opened in (same file
+	// system as the object) and is then renamed over the object path.
+	dirf, err := os.Open(tmp.dir)
 	if err != nil {
-		return fmt.Errorf("open parent dir: %w", err)
+		return fmt.Errorf("open temp dir: %w", err)
 	}
 	defer dirf.Close()
 
+	var linkname string
 	for {
+		linkname = "link-" + uuid.New().String()
 		err = unix.Linkat(int(procdir.Fd()), filepath.Base(tmp.f.Name()),
-			int(dirf.Fd()), filepath.Base(objPath), unix.AT_SYMLINK_FOLLOW)
+			int(dirf.Fd()), linkname, unix.AT_SYMLINK_FOLLOW)
 		if errors.Is(err, syscall.EEXIST) {
-			err := os.Remove(objPath)
-			if err != nil && !errors.Is(err, fs.ErrNotExist) {
-				return fmt.Errorf("remove stale path: %w", err)
-			}
 			continue
 		}
 		if err != nil {
 			return fmt.Errorf("link tmpfile (fd %q as %q): %w",
-				filepath.Base(tmp.f.Name()), objPath, err)
+				filepath.Base(tmp.f.Name()), linkname, err)
 		}
 		break
+	}
+
+	linkpath := filepath.Join(tmp.dir, linkname)
+	err = renameOver(linkpath, objPath)
+	if err != nil {
+		os.Remove(linkpath)
+		return fmt.Errorf("rename tmpfile to %q: %w", objPath, err)
 	}
 
 	err = tmp.f.Close()
@@ -217,6 +228,23 @@ func (tmp *tmpfile) link() error {
 	}
 
 	return nil
+}
+
+// renameOver moves src to dst, replacing an existing file atomically. A
+// stale empty directory at dst (which rename cannot replace with a file) is
+// removed first, as before.
+func renameOver(src, dst string) error {
+	err := os.Rename(src, dst)
+	if err == nil {
+		return nil
+	}
+	if fi, serr := os.Lstat(dst); serr == nil && fi.IsDir() {
+		if rerr := os.Remove(dst); rerr != nil {
+			return fmt.Errorf("remove stale path: %w", rerr)
+		}
+		return os.Rename(src, dst)
+	}
+	return err
 }
 
 func (tmp *tmpfile) fallbackLink() error {
@@ -234,7 +262,7 @@ func (tmp *tmpfile) fallbackLink() error {
 	}
 
 	objPath := filepath.Join(tmp.bucket, tmp.objname)
-	err = os.Rename(tempname, objPath)
+	err = renameOver(tempname, objPath)
 	if err != nil {
 		// rename only works for files within the same filesystem
 		// if this fails fallback to copy
